@@ -4,6 +4,8 @@
 package main
 
 import (
+	"time"
+
 	"verifharness/internal/hx"
 )
 
@@ -18,6 +20,11 @@ func run(c *hx.Ctx) {
 		c28(c)
 	case "C29":
 		c29(c)
+	case "C29GAP":
+		c.Type, c.Agree = "c29_case", "c29_agree"
+		for _, b := range gapRace(genKeys(c.Rng, 5), c.N, 3*time.Second) {
+			c.Failf("c29-unsub-not-retracted-gap", map[string]any{"kind": "gap-race"}, "%s", b)
+		}
 	default:
 		panic("unknown property " + c.Prop)
 	}
